@@ -38,8 +38,15 @@ fn case_decode(reference: &[u8], data: &[u8]) -> Result<bool, String> {
         Err(_) => Err(format!("decode panicked: ref={} data={}", hex(reference), hex(data))),
         Ok(res) => {
             let m = MAX_ALLOC.with(|c| c.get());
-            if m > 4 * X_MAX_DECODED_LEN {
-                return Err(format!("decode allocated {m} bytes at once (> 4*MAX_DECODED_LEN): ref={} data={}", hex(reference), hex(data)));
+            // The bound that follows from the validator (check_rle_stream: decoded length <= MAX_DECODED_LEN): the run-length
+            // layer allocates the decoded buffer once (<= MAX_DECODED_LEN bytes); delta_decode then splits it into at most
+            // MAX_DECODED_LEN / 2 chunks (a chunk costs at least its 2-byte length prefix), each a Vec header of 24 bytes in a
+            // Vec that grows by doubling: one allocation of at most 2 * (MAX_DECODED_LEN / 2) * 24 = 24 * MAX_DECODED_LEN bytes
+            // (about 203 MB; reached by four-byte payloads such as 81 80 80 0f -- observation O8 in DESIGN.md).  An earlier
+            // version of this check used 4 * MAX_DECODED_LEN, which the code never promised: that was a false alarm of the
+            // thorough tier (DESIGN.md 8.4).
+            if m > 24 * X_MAX_DECODED_LEN {
+                return Err(format!("decode allocated {m} bytes at once (> 24*MAX_DECODED_LEN): ref={} data={}", hex(reference), hex(data)));
             }
             Ok(res.is_ok())
         }
